@@ -84,6 +84,15 @@ impl<'a> IndexBuilder<'a> {
             trie_entries.push((k, v.offset as u32));
         }
         self.data.shrink_to_fit();
+        if trie_entries.is_empty() {
+            // the trie builder asserts on an empty key set
+            return Err(DicBuildError {
+                file: "<trie>".to_owned(),
+                line: 0,
+                cause: BuildFailure::TrieBuildFailure,
+            }
+            .into());
+        }
         trie_entries.sort_by(|(a, _), (b, _)| a.cmp(b));
 
         let trie = yada::builder::DoubleArrayBuilder::build(&trie_entries);
